@@ -168,11 +168,17 @@ def extract():
     def echo_ok(conn):
         c = " ".join(conn.split())
         if len(re.findall(r"response_echo_query\(", c)) != 1: return False
-        if not re.search(r"let echo = crate::message::response_echo_query\(&resp, view\.query\);", c): return False
-        if not re.search(r"let view = MessageView::from_slice\(&buf\)\?;", c): return False
-        # `echo` must reach the writer untouched: no other binding of it, no other query source
-        if len(re.findall(r"\blet (?:mut )?echo\b", c)) != 1 or re.search(r"\becho\s*=[^=]", c.replace("let echo =", "")): return False
-        return len(re.findall(r"\becho\b", c)) >= 2
+        m = re.search(r"let (\w+) = (?:crate::message::)?response_echo_query\( ?&(\w+), (\w+)\.query,? ?\);", c)
+        if not m: return False
+        echo, resp, view = m.groups()
+        # the view is the one parsed from the current read buffer, the response the one just routed from it
+        if not re.search(rf"let {view} = MessageView::from_slice\(&buf\)\?;", c): return False
+        if not re.search(rf"if let Some\({resp}\) = route_request_view\(&router, &{view}\)", c): return False
+        # `echo` must reach the writer untouched: bound once, never assigned, used at least once
+        if len(re.findall(rf"\blet (?:mut )?{echo}\b", c)) != 1: return False
+        rest = c.replace(m.group(0), "")
+        if re.search(rf"\b{echo}\s*=[^=]", rest): return False
+        return len(re.findall(rf"\b{echo}\b", rest)) >= 1
     srv_conn = fn_body(src, "handle_connection")
     asrc = test_mod_cut(strip(read("src/async_server.rs")))
     f["serversEchoViewQuery"] = echo_ok(srv_conn) and echo_ok(fn_body(asrc, "handle_connection"))
